@@ -354,6 +354,7 @@ theorem undelFileLink_marks (c : Cfg) (v pSect : Nat) (entry : Blk) (data exts :
       (((rc, none) : RC × Option (Blk × Blk)).2.isSome = true → UsedAll v (exts ++ (data ++ [entry.w F_headerKey])) s'.mem) :=
     fun rc hrc s' => ⟨fun _ => hrc, fun h => by cases h⟩
   unfold undelFileLink
+  apply Post.bind; apply Post.getVolCfg
   apply Post.bind
   refine Post.mono _ _ _ _ _ (setBlockUsed_usedAll c v _ [] s ⟨hwf, fun k hk => by cases hk⟩) ?_
   intro _ s1 h1
@@ -378,6 +379,17 @@ theorem undelFileLink_marks (c : Cfg) (v pSect : Nat) (entry : Blk) (data exts :
       have hD : nD = data.length := by omega
       have hE : nE = exts.length := by omega
       have h3 := h3 hD hE
+      apply Post.bind
+      refine Post.mono _ _ _ (fun (_ : Bool) s' => s3 = s') _ ?_ ?_
+      · split
+        · apply hasFreeBlocks_pure; intro b; rfl
+        · exact Post.pure _ _ _ _ rfl
+      intro room s3' hs3
+      subst hs3
+      by_cases hroom : (!room) = true
+      · rw [if_pos hroom]
+        exact giveBack_exit c v _ _ _ rcVolFull _ (by decide) _ (none_ok rcVolFull (by decide))
+      rw [if_neg hroom]
       apply Post.bind; apply readEntryBlock_mem
       rintro ⟨rc, parent⟩ s4 hm4
       dsimp only
@@ -480,6 +492,10 @@ theorem undelDir_marks (c : Cfg) (v pSect : Nat) (entry : Blk) (s : St)
     split
     · exact Post.pure _ _ _ _ (fun h => absurd h rcError_ne_ok)
     have hwf1 : TableWF (s1.mem.vol v).bitmapTable := by rw [hm1]; exact hwf
+    apply Post.bind; apply hasFreeBlocks_pure
+    intro room
+    split
+    · exact Post.pure _ _ _ _ (fun h => absurd h (by decide))
     apply Post.bind; apply readEntryBlock_mem
     rintro ⟨rc, parent⟩ s2 hm2
     dsimp only
@@ -538,6 +554,7 @@ theorem undelDir_marks (c : Cfg) (v pSect : Nat) (entry : Blk) (s : St)
                  fun _ => h8.sub (fun k hk => by rw [List.mem_singleton.mp hk]; exact List.mem_cons_self)⟩
   · rw [if_neg hd]
     have hwf1 : TableWF (s1.mem.vol v).bitmapTable := by rw [hm1]; exact hwf
+    rw [if_neg hd]
     apply Post.bind; apply readEntryBlock_mem
     rintro ⟨rc, parent⟩ s2 hm2
     dsimp only
